@@ -40,18 +40,18 @@ func registerAll() {
 
 	uwSim := []string{"SimReader (chunking, read faults, truncation, stored-byte mutations)", "arena builder and total snapshot", "reference interpreter of entry sequences (model.UWModel)"}
 	plans["C01"] = &Plan{ID: "C01", Level: "exploration",
-		Legs: []Leg{{World: "uw", Profile: "hostile", Quick: 20000, Weight: 5}, {World: "uw", Profile: "mixed", Quick: 10000, Weight: 3}, {World: "uw", Profile: "rawmut", Quick: 4000, Weight: 1}},
-		Rule: "each evaluation = one seeded Unpack scenario (1-3 archives of 1-12 entries into one destination, adversarial names/link targets, reader chunking and faults) executed on the real code in a chroot arena; total snapshot of the arena minus dst compared before/after every Unpack call. distinct = distinct canonical scenario hash; non-trivial = >=2 entries, or a fired reader fault, or a decorated name.",
+		Legs:   []Leg{{World: "uw", Profile: "hostile", Quick: 20000, Weight: 5}, {World: "uw", Profile: "mixed", Quick: 10000, Weight: 3}, {World: "uw", Profile: "rawmut", Quick: 4000, Weight: 1}},
+		Rule:   "each evaluation = one seeded Unpack scenario (1-3 archives of 1-12 entries into one destination, adversarial names/link targets, reader chunking and faults) executed on the real code in a chroot arena; total snapshot of the arena minus dst compared before/after every Unpack call. distinct = distinct canonical scenario hash; non-trivial = >=2 entries, or a fired reader fault, or a decorated name.",
 		Assume: []string{"no other process writes into the arena during an operation", "linux/amd64 only", "bounds: <=12 entries x <=3 archives, path depth <=4, '..' runs <=6"},
 		Real:   realCommon, Sim: uwSim}
 	plans["C04"] = &Plan{ID: "C04", Level: "exploration",
-		Legs: []Leg{{World: "uw", Profile: "hostile", Quick: 20000, Weight: 5}, {World: "uw", Profile: "mixed", Quick: 10000, Weight: 3}},
-		Rule: "each evaluation = one seeded Unpack scenario; after every Unpack return (success or error) every symlink under dst is resolved physically (Lstat/Readlink per component, lexically past the first missing one) and must stay inside dst unless allow-listed; no absolute non-allow-listed link may exist; a first ill-formed entry that is an escaping/absolute link must be refused with an illegal-slug error. distinct/non-trivial as for C01.",
+		Legs:   []Leg{{World: "uw", Profile: "hostile", Quick: 20000, Weight: 5}, {World: "uw", Profile: "mixed", Quick: 10000, Weight: 3}},
+		Rule:   "each evaluation = one seeded Unpack scenario; after every Unpack return (success or error) every symlink under dst is resolved physically (Lstat/Readlink per component, lexically past the first missing one) and must stay inside dst unless allow-listed; no absolute non-allow-listed link may exist; a first ill-formed entry that is an escaping/absolute link must be refused with an illegal-slug error. distinct/non-trivial as for C01.",
 		Assume: []string{"allow-list interpreted as documented (exact path or parent directory of the resolved target)", "bounds as C01"},
 		Real:   realCommon, Sim: uwSim}
 	plans["C15"] = &Plan{ID: "C15", Level: "exploration",
-		Legs: []Leg{{World: "uw", Profile: "small", Quick: 5000, Weight: 2, Index: true}, {World: "uw", Profile: "wellformed", Quick: 20000, Weight: 6}},
-		Rule: "each evaluation = one well-formed archive sequence (entries accepted by the reference interpreter: no '..', no path through a link, links relative and inside; same-type repeats, read-only repeats, children before parents, PAX/GNU/USTAR encodings, global headers, empty names, unrepresentable types) unpacked by the real code as uid 0 or 65534; dst is compared path by path with the reference interpreter's tree (type, content, mode&0777, mtime, link target; implicit parents for existence only). 'small' seeds index all sequences of length <=3 over a 6-path universe. distinct = scenario hash; non-trivial = >=2 entries or decorated name.",
+		Legs:   []Leg{{World: "uw", Profile: "small", Quick: 5000, Weight: 2, Index: true}, {World: "uw", Profile: "wellformed", Quick: 20000, Weight: 6}},
+		Rule:   "each evaluation = one well-formed archive sequence (entries accepted by the reference interpreter: no '..', no path through a link, links relative and inside; same-type repeats, read-only repeats, children before parents, PAX/GNU/USTAR encodings, global headers, empty names, unrepresentable types) unpacked by the real code as uid 0 or 65534; dst is compared path by path with the reference interpreter's tree (type, content, mode&0777, mtime, link target; implicit parents for existence only). 'small' seeds index all sequences of length <=3 over a 6-path universe. distinct = scenario hash; non-trivial = >=2 entries or decorated name.",
 		Assume: []string{"what the archive says = what Go's archive/tar reader decodes", "type-changing repeats are outside the strict class (outcome unspecified by the statement)", "implicit parent directories compared for existence only"},
 		Real:   realCommon, Sim: uwSim}
 }
@@ -62,6 +62,9 @@ func uwSweep(seed uint64) []scen {
 	base := uw.Gen(seed, "wellformed")
 	base.Profile = "sweep"
 	base.Archives = base.Archives[:1]
+	// single gzip member: a cut exactly between two members leaves a stream that is itself a
+	// complete (marker-less) archive, which no reader can tell from the whole one
+	base.Archives[0].SplitMember = 0
 	raw, err := base.Archives[0].BuildTar()
 	if err != nil {
 		return nil
